@@ -215,6 +215,17 @@ pub fn run(ctx: &mut Ctx) -> (&'static str, String, bool) {
     for p in parts {
         ctx.merge(p);
     }
+    // ---- the WebSocket adaptor's write path under real back-pressure (its sink may return Pending on flush) ----
+    if !miri {
+        let mut p = Part::new();
+        let mut r = base_rng.fork(4242);
+        for compressed in MODES {
+            if let Err(e) = super::c20::run_backpressure_writes(c, &mut r, compressed, ctx.tier.pick(4000usize, 12000usize), &mut p, "C06") {
+                ctx.inconclusive(e);
+            }
+        }
+        ctx.merge(p);
+    }
     ctx.assume("only writes that returned Ok create an obligation; after an injected hard error the accepted bytes must still be a prefix of the expected stream");
     ctx.assume("Interrupted (EINTR) is injected for the blocking transport only, where std's write_all semantics define it as retryable");
     (
